@@ -3,6 +3,7 @@ package main
 import (
 	"fmt"
 	"math/big"
+	"strings"
 
 	"github.com/bnb-chain/tss-lib/v2/tss"
 
@@ -233,6 +234,19 @@ func genC11(r *vc.Run) {
 			}
 		}
 	}
+	// a dishonest Bob written from the paper (wrong public point, s1 = 0 mod q, U chosen after the challenge, the mirrored claim)
+	c13DishonestBob(r, rng{r})
+	// the Paillier key proof: prover and verifier against the model (its 13 challenges come from one indexed hash chain)
+	{
+		keys, _ := fixtures()
+		for ki := 0; ki < 2; ki++ {
+			kA := keys[ki]
+			for _, kk := range []*big.Int{big.NewInt(1), big.NewInt(565), new(big.Int).Lsh(big.NewInt(1), 200)} {
+				proveThenVerify(r, "pai", "pai_prove", []val.V{skV(kA.PaillierSK), val.I(kk), pointV(kA.ECDSAPub)},
+					"pai_verify", func(p val.V) []val.V { return []val.V{val.I(kA.PaillierSK.N), val.I(kk), pointV(kA.ECDSAPub), p} }, false)
+			}
+		}
+	}
 }
 
 // ---------------- C12 ----------------
@@ -336,12 +350,36 @@ func genC12(r *vc.Run) {
 		}
 	}
 	_ = q
+	c12Replays(r)
 	c12Shifts(r, insts)
 	// the challenge derivation itself: with the provers' randomness fixed, model and implementation must produce identical proofs
 	// (a component missing from, or added to, the hashed transcript changes every response)
 	c10Light = true
 	c10Body(r)
 	c10Light = false
+}
+
+// c12Replays: at protocol level, another participant's ring-Pedersen parameters with their (session-less) DLN proofs replayed as one's own,
+// verbatim and with the two generators and their proofs exchanged, must be refused by every honest party.
+func c12Replays(r *vc.Run) {
+	for _, fr := range faultRunners() {
+		if fr.proto != "ecdsa_keygen" {
+			continue
+		}
+		for _, kind := range []string{"mirror-swap", "mirror"} {
+			f := fault{fr.proto, "N2", "KGRound1Message", "*", 0, kind}
+			res := runFault(fr, f, r.Seed+int64(len(kind)))
+			r.Dist["replay/"+kind]++
+			r.CountCase(f.String(), res.Applied > 0, fmt.Sprintf("%s => culprits=%v", f.String(), res.Culprits))
+			refused := false
+			for _, t := range res.ErrText {
+				refused = refused || strings.Contains(t, "KGRound1Message")
+			}
+			if res.Applied > 0 && !refused {
+				r.Violate("replay-accepted|"+fr.proto+"|KGRound1Message|"+kind, "another participant's parameters and DLN proofs were replayed by N2 and no honest party refused that message", f.String())
+			}
+		}
+	}
 }
 
 // c12Shifts: re-simulation attacks. For a commitment a and response z linked by g^z = a * y^c, the pair (a*g^d, z+d) satisfies the
